@@ -16,7 +16,7 @@ def _f(fn, args):
     return lambda z: float(np.asarray(fn(z, args)).reshape(-1)[0])
 
 
-def convolve(rsl, basis, c, epsrel=1e-10, zbreaks=()):
+def convolve(rsl, basis, c, epsrel=1e-10, zbreaks=(), derive_loc=False):
     """returns (I[j], S[j]) for all basis functions; S = sum of absolute piece contributions"""
     n = basis.n
     val = np.zeros(n)
@@ -78,7 +78,19 @@ def convolve(rsl, basis, c, epsrel=1e-10, zbreaks=()):
                     v = quad(integrand, s_lo, s_hi, epsabs=0.0, epsrel=epsrel, limit=100)[0]
                     val[j] += v
                     sca[j] += abs(v)
-    if rsl.loc is not None:
+    if rsl.loc is not None and derive_loc and sing is not None:
+        # do not trust the x-dependence of the local part: rebuild it from the contract loc(x) = delta - int_0^x sing
+        # anchor at x0 -> 0 (some hand-written local parts contain ln(x) and are NaN at exactly 0)
+        x0 = 1e-12
+        lc = float(np.asarray(rsl.loc(x0, rsl.args["loc"])).reshape(-1)[0])
+        cuts = [x0] + [t for t in (1e-9, 1e-6, 1e-3, 0.5, 0.9, 0.99, 0.9999) if x0 < t < c] + [c]
+        with warnings.catch_warnings():
+            warnings.simplefilter("ignore")
+            for lo, hi in zip(cuts[:-1], cuts[1:]):
+                lc -= quad(sing, lo, hi, epsabs=0.0, epsrel=1e-11, limit=200)[0]
+        val += lc * pc
+        sca += abs(lc * pc)
+    elif rsl.loc is not None:
         lc = float(np.asarray(rsl.loc(c, rsl.args["loc"])).reshape(-1)[0])
         val += lc * pc
         sca += abs(lc * pc)
